@@ -108,6 +108,8 @@ pub fn gen_for(prop: &str, seed: u64, _tier: &str) -> Plan {
         Engine::Core if prop == "C11" && seed % 8 == 0 => crate::expert::gen_plan(seed),
         Engine::Core if prop == "C11" && seed % 8 == 1 => crate::mapeng::gen_plan(if seed % 16 == 1 { "C15" } else { "C16" }, seed),
         Engine::Core if prop == "C11" && seed % 8 == 2 => crate::templates::gen_plan(seed),
+        // (and over histories with heights around a small limit, with reconfigurations)
+        Engine::Core if prop == "C11" && seed % 16 == 3 => crate::limits::gen_plan(seed),
         // C04: well-formed programs over the expert API, incremental-map and the typed shapes
         Engine::Core if prop == "C04" && seed % 8 == 0 => crate::expert::gen_plan(seed),
         Engine::Core if prop == "C04" && seed % 8 == 1 => crate::mapeng::gen_plan(if seed % 16 == 1 { "C15" } else { "C16" }, seed),
